@@ -61,6 +61,10 @@ CHECKS['C16'] = dict(level='other',
    text='Deductive: at the blocking point of dict update_selected the session is up to date with the change log (no sleep with work pending) and the listener was registered before; _AsyncioEvent.set sets every registered listener; every change-log entry is followed by the signal in the same atomic segment. Bounded: bursts of changes against idling sessions on the real server with the transport blocked at each position, DONE racing with changes, read-only idlers, a changing session without the mailbox selected, checked with a client model.',
    note='Liveness proper (finitely many scheduler steps) rests on assumed asyncio progress; IMAPConnection.idle/handle_updates are bounded only; maildir polling is not covered.',
    ref='6 C16')
+CHECKS['C08'] = dict(level='other',
+   text='Deductive: _BaseLayout._split, the only producer of the name parts that reach path construction in the maildir layouts, is proved to return only parts that are safe path components (not empty, not . or .., without NUL or path separator), the empty list only for INBOX, or to raise FileNotFoundError; a structural obligation shows every path construction in layout.py consumes parts from _split. Bounded (decides the statement): on the real MaildirBackend (both layouts, two users) every filesystem path touched while hostile names are used in 15 commands is audited (sys.audit) to lie strictly inside the user\'s directory, the tree outside stays byte-identical and another user\'s marker message never appears; the same names on the dict backend leave what a second user observes unchanged.',
+   note='Strings are opaque in the contract (part predicates uninterpreted); the path lemma (safe components normalise inside the root) is assumed and cross-checked by the bounded run; sys.audit does not see accesses made by C extensions that bypass it; the redis backend is not run; the bounded part is exhaustive only on its stated name alphabet.',
+   ref='6 C08')
 NOT_YET = {}
 def main():
     props = [json.loads(l) for l in open(os.path.join(HERE, 'properties.jsonl'))]
